@@ -15,6 +15,9 @@ package main
 //   r25/r26/r27  : deterministic regression streams for the three repaired defects D25 (..data swap whose old target stays),
 //                  D26 (regular file becomes a symlink, then the entry is replaced), D27 (write between the loop's read and
 //                  its Add of the new directory's watch, window held open through the harness's decoder): all must converge.
+//   ovf          : the loop is parked inside a pass (blocking decoder), the kernel's inotify queue is overflowed with unrelated
+//                  mkdir/rmdir pairs in the config's directory, the config is rewritten (its event is lost), the loop is
+//                  released: the overflow error must wake the loop into a read of the final content.
 // Everything timing dependent polls an OBSERVATION until a generous deadline; no sleep is ever an expectation.
 
 import (
@@ -497,15 +500,15 @@ func (s *c17Sess) length() int {
 
 type c17Dec struct {
 	s *c17Sess
-	// afterRead (r27 stream only) is called with the bytes just read, before Decode returns to Value
-	afterRead func(b []byte)
+	// afterRead (r27 / ovf streams only) is called with the bytes just read, before Decode returns to Value
+	afterRead atomic.Pointer[func(b []byte)]
 }
 
 func (d *c17Dec) Decode(r io.Reader, _ *dials.Type) (reflect.Value, error) {
 	d.s.gatePass()
 	b, err := io.ReadAll(r)
-	if err == nil && d.afterRead != nil {
-		d.afterRead(b)
+	if f := d.afterRead.Load(); err == nil && f != nil {
+		(*f)(b)
 	}
 	if err != nil {
 		d.s.add(c17Ent{K: "readerr", D: err.Error()})
@@ -1628,7 +1631,7 @@ func c17RunR27(c *Ctx, h c17Hist, base string) *c17Out {
 		return o
 	}
 	swapContent := h.Ops[0].Content
-	l.dec.afterRead = func(b []byte) {
+	hook := func(b []byte) {
 		if string(b) == swapContent {
 			once.Do(func() {
 				close(hit)
@@ -1636,6 +1639,7 @@ func c17RunR27(c *Ctx, h c17Hist, base string) *c17Out {
 			})
 		}
 	}
+	l.dec.afterRead.Store(&hook)
 	if err := l.fs.apply(h.Ops[0], func() {}); err != nil {
 		o.add("violation", "harness: file operation failed: "+err.Error(), nil, nil, nil)
 		close(resume)
@@ -1668,10 +1672,147 @@ func c17RunR27(c *Ctx, h c17Hist, base string) *c17Out {
 	return o
 }
 
+// c17OverflowPairs: number of mkdir/rmdir pairs (two events each that do not coalesce) needed to overflow the kernel's
+// inotify queue of this source while nobody drains it (0: the limit cannot be read or is too large for a regression run).
+func c17OverflowPairs() int {
+	b, err := os.ReadFile("/proc/sys/fs/inotify/max_queued_events")
+	if err != nil {
+		return 0
+	}
+	n, err := strconv.Atoi(strings.TrimSpace(string(b)))
+	if err != nil || n <= 0 || n > 200000 {
+		return 0
+	}
+	return n/2 + 4096 + 3000 // the queue itself, what fsnotify's reader may already hold (4096-event buffer), a margin
+}
+
+const c17OverflowDeadline = 40 * time.Second // draining ~30 000 filtered events takes seconds; generous under load
+
+// ovf (seeded change: the Errors arm of the select must fall through to the read): park the loop inside a pass, overflow
+// the inotify queue with unrelated names in the config's directory, rewrite the config in place (its event is dropped by
+// the full queue), release the loop.  Once changes stop the last reported value must be the decoding of the final content:
+// the only wake-up that can lead there is fsnotify's ErrEventOverflow.
+func c17RunOvf(c *Ctx, h c17Hist, base string) *c17Out {
+	o := &c17Out{hist: h, counts: map[string]int{}}
+	pairs := c17OverflowPairs()
+	if pairs == 0 {
+		o.count("ovf/skipped(max_queued_events unreadable or too large)")
+		o.finish(nil)
+		return o
+	}
+	hit, resume := make(chan struct{}), make(chan struct{})
+	var once sync.Once
+	l := c17Start(o, base, false)
+	if l == nil {
+		return o
+	}
+	fail := func(kind, what string, exp, obs any) *c17Out {
+		l.dec.afterRead.Store(nil)
+		select {
+		case <-resume:
+		default:
+			close(resume)
+		}
+		o.add(kind, what, exp, obs, nil)
+		l.stop(o)
+		return o
+	}
+	// 1. a first change, picked up; then the loop must be idle with no passing event left in its queue (observed: the
+	//    log stays quiet), otherwise such an event - not the overflow error - would lead to the final read
+	if err := l.fs.apply(h.Ops[0], func() {}); err != nil {
+		return fail("violation", "harness: file operation failed: "+err.Error(), nil, nil)
+	}
+	if !l.waitConverged(h, h.Ops[0].Content) {
+		return fail("violation", "the first rewrite was not picked up within the deadline", c17Tok(h.Ops[0].Content), map[string]any{"log_tail": c17Tail(l.entries(), 8)})
+	}
+	for q, n := 0, l.sess.length(); q < 25; {
+		time.Sleep(2 * time.Millisecond)
+		if m := l.sess.length(); m != n {
+			n, q = m, 0
+		} else {
+			q++
+		}
+	}
+	// 2. park the loop inside a pass: ONE event that passes the filter (a directory named like the Kubernetes link is
+	//    created in the config's directory: a single IN_CREATE), the decoder holds the pass after its read
+	hook := func(b []byte) {
+		once.Do(func() {
+			close(hit)
+			<-resume
+		})
+	}
+	l.dec.afterRead.Store(&hook)
+	wakeName := map[string]string{"plain": "..data", "k8s": "..dir"}[l.fs.layout]
+	if err := os.Mkdir(filepath.Join(l.fs.dir, wakeName), 0o755); err != nil {
+		return fail("violation", "harness: mkdir failed: "+err.Error(), nil, nil)
+	}
+	select {
+	case <-hit: // nobody takes events from fsnotify any more
+	case <-time.After(c17Deadline):
+		return fail("disagreement", "an event named <dir>/"+wakeName+" did not wake the loop into a read within the deadline (C17_events_pass)", "a read", map[string]any{"log_tail": c17Tail(l.entries(), 8)})
+	}
+	l.dec.afterRead.Store(nil)
+	// 3. overflow the queue with unrelated names, then the change whose event is lost, then the release
+	t0 := time.Now()
+	for i := 0; i < pairs; i++ {
+		p := filepath.Join(l.fs.dir, "junk"+strconv.Itoa(i))
+		if err := os.Mkdir(p, 0o755); err != nil {
+			return fail("violation", "harness: mkdir failed: "+err.Error(), nil, nil)
+		}
+		os.Remove(p)
+	}
+	o.count("ovf/unrelated-events-in-thousands/" + strconv.Itoa(2*pairs/1000))
+	final := h.Ops[1]
+	if err := l.fs.apply(final, func() {}); err != nil {
+		return fail("violation", "harness: file operation failed: "+err.Error(), nil, nil)
+	}
+	burst := time.Since(t0)
+	close(resume)
+	t1 := time.Now()
+	ok := false
+	for time.Since(t1) < c17OverflowDeadline {
+		if c17Converged(l.entries(), h.Init, h.InitValid, final.Content, final.Valid) {
+			ok = true
+			break
+		}
+		time.Sleep(5 * time.Millisecond)
+	}
+	o.converged = time.Since(t1)
+	if ok {
+		o.count("ovf/converged")
+	} else {
+		ents := l.entries()
+		good, _ := c17LastGood(ents, h.Init, h.InitValid)
+		seen := false
+		for _, e := range ents {
+			seen = seen || (e.K == "read" && e.D == final.Content)
+		}
+		o.add("violation", "after the inotify queue overflowed while the loop was busy, a rewrite of the config made during the overflow was never read: the view does not converge to the final content (the overflow error did not lead to a read)",
+			map[string]any{"final": c17Tok(final.Content), "final_decodes": final.Valid},
+			map[string]any{"last_good": c17Tok(good), "final_content_was_read": seen, "unrelated_events": 2 * pairs, "burst_took": burst.String(),
+				"waited": c17OverflowDeadline.String(), "log_tail": c17Tail(ents, 6)}, nil)
+	}
+	l.stop(o)
+	its, anomalies := c17Parse(l.entries())
+	o.iters = len(its)
+	c17LogOracles(o, its, anomalies)
+	c17Correspond(c, o, its)
+	o.finish(its)
+	o.nontrivial = true
+	return o
+}
+
 // ---------- event filter: model vs names the kernel really produced is environment; the filter itself is tied here ----------
 
 func c17FilterCorrespondence(c *Ctx) {
 	res := c.Res
+	// at most three findings per kind: the list of findings is bounded and must keep room for the histories
+	filed := map[string]int{}
+	add := func(f Finding) {
+		if filed[f.What]++; filed[f.What] <= 3 {
+			res.Add(f)
+		}
+	}
 	r := c.RNG.Fork()
 	n := c.scale(200, 2000)
 	for i := 0; i < n; i++ {
@@ -1690,7 +1831,17 @@ func c17FilterCorrespondence(c *Ctx) {
 			name == filepath.Join(filepath.Dir(cleaned), "..data") || name == filepath.Join(filepath.Dir(cleaned), "..dir") || name == filepath.Dir(resolved)
 		rep := c.Drv.Ask("wt pass " + hexEnc(cleaned) + " " + hexEnc(resolved) + " " + hexEnc(name))
 		if rep != "ok "+bit(want) {
-			res.Add(Finding{Kind: "disagreement", What: "event filter: model differs from the reference list of names", Case: map[string]string{"cleaned": cleaned, "resolved": resolved, "name": name}, Expected: bit(want), Model: rep})
+			add(Finding{Kind: "disagreement", What: "event filter: model differs from the reference list of names", Case: map[string]string{"cleaned": cleaned, "resolved": resolved, "name": name}, Expected: bit(want), Model: rep})
+		}
+		// the select arm for this event, and for the wake-ups that carry no name
+		arm := map[bool]string{true: "ok pass", false: "ok skip"}[want]
+		if rep := c.Drv.Ask("wt arm " + hexEnc(cleaned) + " " + hexEnc(resolved) + " N" + hexEnc(name)); rep != arm {
+			add(Finding{Kind: "disagreement", What: "select arm for an event: model differs from the reference", Case: map[string]string{"cleaned": cleaned, "resolved": resolved, "name": name}, Expected: arm, Model: rep})
+		}
+		for wk, wantArm := range map[string]string{"T": "ok pass", "L": "ok pass", "X": "ok pass", "D": "ok exit"} {
+			if rep := c.Drv.Ask("wt arm " + hexEnc(cleaned) + " " + hexEnc(resolved) + " " + wk); rep != wantArm {
+				add(Finding{Kind: "disagreement", What: "select arm for ticker / reload / watcher error / done context: model differs from the reference (all but the last must lead to a read)", Case: map[string]string{"wakeup": wk}, Expected: wantArm, Model: rep})
+			}
 		}
 		res.Count("filter/" + bit(want))
 		res.Case("filter|"+cleaned+"|"+resolved+"|"+name, name != cleaned, nil)
@@ -1711,6 +1862,8 @@ func c17RunOne(c *Ctx, h c17Hist, base string) *c17Out {
 		return c17RunR26(c, h, base)
 	case "r27":
 		return c17RunR27(c, h, base)
+	case "ovf":
+		return c17RunOvf(c, h, base)
 	}
 	return c17RunFree(c, h, base)
 }
@@ -1870,7 +2023,7 @@ func checkC17(c *Ctx) {
 	res.Rule = "histories of 1-12 operations over {in-place rewrite (one write / two chunks), atomic rename-over, Kubernetes-style ..data symlink swap incl. removal of the old timestamped directory, " +
 		"delete-and-recreate} x {new valid content, identical bytes, malformed content}, pauses from {0, 1 ms, 20 ms} before and inside operations, plain and Kubernetes layouts (k8s -> plain by renaming over the symlink), " +
 		"8% invalid initial files; modes: free (event driven, racing), step (rendezvous through the Reload channel, exact model state, kernel watch table from /proc/self/fdinfo), e2e (dials.Config + JSON decoder), " +
-		"plus ..data swaps whose old target stays in place and regular-file-to-symlink transitions, the deterministic regression streams r25/r26/r27 of the repaired defects D25-D27 and an event-filter stream; histories run in child processes (listed finding D28 can kill the process); " +
+		"plus ..data swaps whose old target stays in place and regular-file-to-symlink transitions, the deterministic regression streams r25/r26/r27 of the repaired defects D25-D27, the inotify-queue-overflow stream ovf (loop parked in the decoder, ~2*(max_queued_events/2+7096) unrelated mkdir/rmdir events, config rewritten, loop released) and an event-filter / select-arm stream; histories run in child processes (listed finding D28 can kill the process); " +
 		"non-trivial: at least 2 operations of at least 2 different (mechanism, content) kinds and at least one reported version; distinct = by operation list and observed report/error sequence"
 	base := c.WorkDir
 	if base == "" {
@@ -1918,6 +2071,27 @@ func checkC17(c *Ctx) {
 		hs = append(hs, c17Hist{ID: "r27" + id, Mode: "r27", Layout: "k8s", Init: "K=" + id + ".0:;", InitValid: true,
 			// the old target stays in place: the rename onto ..data is the only event of the swap that passes the filter
 			Ops: []c17Op{{Mech: "swapkeep", What: "new", Content: "K=" + id + ".1:;", Valid: true}, {Mech: "inplace", What: "new", Content: "K=" + id + ".2:;", Valid: true}}})
+	}
+	// overflow regression stream (slow: tens of thousands of file system events per history)
+	nOvf := c.scale(4, 16)
+	if c.Search {
+		nOvf = 4
+	}
+	for i := 0; i < nOvf; i++ {
+		rr := r.Fork()
+		id := fmt.Sprintf("o%d", i)
+		h := c17Hist{ID: id, Mode: "ovf", Layout: []string{"plain", "k8s"}[i%2], Init: "K=" + id + ".0:;", InitValid: true}
+		last := c17Op{Mech: "inplace", What: "new", Valid: true}
+		if rr.Chance(50) {
+			last.Mech = map[string]string{"plain": "rename", "k8s": "swap"}[h.Layout]
+		}
+		if rr.Chance(25) {
+			last.What = "bad"
+		}
+		last.Content = c17GenContent(rr, id, 2, last.What, false)
+		last.Valid = c17ValidText([]byte(last.Content))
+		h.Ops = []c17Op{{Mech: "inplace", What: "new", Content: c17GenContent(rr, id, 1, "new", false), Valid: true}, last}
+		hs = append(hs, h)
 	}
 	// interleave the modes so that an early stop still saw all of them
 	sort.SliceStable(hs, func(i, j int) bool { return c17Order(hs[i].ID) < c17Order(hs[j].ID) })
@@ -1999,8 +2173,8 @@ func checkC17(c *Ctx) {
 
 func c17Order(id string) int {
 	// f12 -> 12*4+0, s12 -> 12*4+1, e12 -> 12*4+2, d1x -> early
-	if strings.HasPrefix(id, "r2") {
-		return 0
+	if strings.HasPrefix(id, "r2") || strings.HasPrefix(id, "o") {
+		return 0 // the slow deterministic streams start first and overlap with the rest
 	}
 	n, _ := strconv.Atoi(id[1:])
 	return n*4 + strings.Index("fse", id[:1]) + 1
